@@ -14,3 +14,19 @@ package database
 //@ func Update.ForEachModelUpdate
 //@ iterator
 //@ modifies nothing
+
+// Shape of a transaction reply (RFC 7047 4.1.3): results are present up to and
+// including the first failed operation.
+//@ pred ResultShape(rs []*ovsdb.OperationResult) := forall i: int :: 0 <= i && i < len(rs) ==> (rs[i] != nil || (exists j: int :: 0 <= j && j < i && rs[j] != nil && rs[j].Error != ""))
+//@ pred AllOK(rs []*ovsdb.OperationResult) := forall i: int :: 0 <= i && i < len(rs) ==> (rs[i] != nil && rs[i].Error == "")
+
+//@ func Database.NewTransaction
+//@ modifies nothing
+//@ ensures result != nil
+
+// A transaction writes only the operations it was given (UUID assignment,
+// named-uuid expansion) and objects it allocates; the committed database is
+// reached through read-only calls.
+//@ func Transaction.Transact
+//@ modifies operations[*]
+//@ ensures ResultShape(result0) && result1 != nil
